@@ -5,9 +5,11 @@ EXTENDS Integers, Sequences, FiniteSets, TLC, SequencesExt, Json
 CONSTANTS MaxPts,      \* positions 0..MaxPts
           MaxCount,    \* max count of an update
           MaxArrivals, \* bound on Handle calls
-          Init0        \* initial state
+          Init0,       \* initial state
+          MinCount
 
-MinCount == 1
+\* MinCount = 0 admits updates that carry a position but no count (read marks, channelTooLong): they are delivered in
+\* order like any other update and never move the position
 Updates == { u \in [s : 0..MaxPts, e : 1..MaxPts] : u.e - u.s >= MinCount /\ u.e - u.s <= MaxCount }
 
 VARIABLES state, gaps, pending, timer,   \* implementation state
